@@ -307,6 +307,11 @@ func (s *Stream) ReceiveFrame(ctx context.Context) ([]byte, error) {
 
 	// Handle zero-length messages
 	if messageLength == 0 {
+		// An AES-GCM-protected frame always carries at least the 16-byte tag, so
+		// an empty frame on an encrypting stream cannot be authentic.
+		if s.gcm != nil && s.encrypted {
+			return nil, fmt.Errorf("empty frame on encrypted stream")
+		}
 		return []byte{}, nil
 	}
 
@@ -362,6 +367,11 @@ func (s *Stream) ReceiveFrameWithEnd(ctx context.Context) ([]byte, byte, error) 
 
 	// Handle zero-length messages
 	if messageLength == 0 {
+		// An AES-GCM-protected frame always carries at least the 16-byte tag, so
+		// an empty frame on an encrypting stream cannot be authentic.
+		if s.gcm != nil && s.encrypted {
+			return nil, 0, fmt.Errorf("empty frame on encrypted stream")
+		}
 		// Track header for AAD digest calculation
 		if s.recvDigest != nil && s.finalRecvDigest == nil {
 			s.recvDigest.Write(header)
